@@ -82,7 +82,7 @@ static CTransactionRef mk_tx(uint8_t id, uint32_t lock)
     return CTransactionRef(new CTransaction(std::move(m)));
 }
 
-enum { K_NONE, K_ADD0, K_ADD0_COPY, K_ADD1, K_REMOVE0, K_REMOVE1, K_PICK, K_CONFIRM, K_QUERIES };
+enum { K_NONE, K_ADD0, K_ADD0_COPY, K_ADD1, K_REMOVE0, K_REMOVE1, K_PICK, K_CONFIRM, K_QUERIES, K_STALE };
 // witnesses expected per entry (a label is confirmed if one of its instances is)
 enum { W_ADDED = 1, W_NOTADDED = 2, W_PICK_T0 = 4, W_PICK_T1 = 8, W_PICK_NONE = 16, W_KNOWN = 32, W_UNKNOWN = 64, W_STALE = 128 };
 
@@ -189,8 +189,14 @@ template <int WIT> static void do_queries(World& w)
     bool conf = false; for (int k = 0; k < MAXS; k++) if (i >= 0 && k == slot) conf = M[i].s[k].conf;
     VASSERT(w.pb->DidNodeConfirmReception(node) == conf, "DidNodeConfirmReception");
     VASSERT(w.pb->HavePendingTransactions() == (m_pending(0) || m_pending(1)), "HavePendingTransactions");
+    if constexpr ((WIT & W_KNOWN) != 0) VWITNESS(c >= 0, "query_known_node");
+    if constexpr ((WIT & W_UNKNOWN) != 0) VWITNESS(c < 0, "query_unknown_node");
+}
+
+template <int WIT> static void do_stale(World& w)
+{
     // stale: pending and (never confirmed: added more than 5 min ago | else: last confirmation more than 1 min ago)
-    const std::vector<CTransactionRef> stale = w.pb->GetStale();
+    const std::vector<CTransactionRef>& stale = *new std::vector<CTransactionRef>(w.pb->GetStale());   // never destroyed
     bool in[2] = {false, false}; bool foreign = false;
     for (size_t q = 0; q < 3; q++) if (q < stale.size()) { if (stale[q].get() == w.t[0].get()) in[0] = true; else if (stale[q].get() == w.t[1].get()) in[1] = true; else foreign = true; }
     int want_n = 0; bool ok = true;
@@ -200,8 +206,6 @@ template <int WIT> static void do_queries(World& w)
         if (want != in[j]) ok = false;
     }
     VASSERT(ok && !foreign && stale.size() == (size_t)want_n, "GetStale: exactly the pending transactions not sent/confirmed recently");
-    if constexpr ((WIT & W_KNOWN) != 0) VWITNESS(c >= 0, "query_known_node");
-    if constexpr ((WIT & W_UNKNOWN) != 0) VWITNESS(c < 0, "query_unknown_node");
     if constexpr ((WIT & W_STALE) != 0) VWITNESS(stale.size() > 0, "some_stale");
 }
 
@@ -217,6 +221,7 @@ template <int OP, int WIT> static void run_op(World& w)
         if constexpr (OP == K_PICK) do_pick<WIT>(w);
         if constexpr (OP == K_CONFIRM) do_confirm<WIT>(w);
         if constexpr (OP == K_QUERIES) do_queries<WIT>(w);
+        if constexpr (OP == K_STALE) do_stale<WIT>(w);
         compare_state(w);
     }
 }
